@@ -134,20 +134,20 @@ pub fn worker(prop: &str, tier: Tier, master: u64, start: u64, end: u64, deadlin
         let seed = run_seed(master, prop, i);
         let scn = props::generate(prop, seed, tier, i);
         stats.inc(&format!("reader:{:?}", scn.personality));
-        let vs = if want_digests {
+        let mut st = Stats::default();
+        let vs = props::check(&scn, &mut st);
+        if want_digests {
             // digest of everything the run produced: its scenario, its violations and its own counters
-            let mut st = Stats::default();
-            let vs = props::check(&scn, &mut st);
             let text = format!("{}|{}|{}", serde_json::to_string(&scn).unwrap_or_default(), serde_json::to_string(&vs).unwrap_or_default(), serde_json::to_string(&st).unwrap_or_default());
             if let Ok(d) = std::env::var("VERIF_DIGEST_DUMP") {
                 let _ = std::fs::write(format!("{d}/{i}-{start}.txt"), &text);
             }
             digests.push((i, crate::rng::hash_str(&text)));
-            stats.merge(st);
-            vs
-        } else {
-            props::check(&scn, &mut stats)
-        };
+        }
+        for k in st.counters.keys().filter(|k| k.starts_with("level:")) {
+            st.first_seen.entry(k.clone()).or_insert(i);
+        }
+        stats.merge(st);
         runs += 1;
         for v in vs {
             stats.inc("violations_raw");
@@ -300,7 +300,9 @@ pub fn check(opts: &CheckOpts) -> i32 {
     let w = opts.workers.max(1) as u64;
     // interleaved slices would balance better, but contiguous slices keep "run i" independent of W
     // either way; use many small slices handed out round-robin to even out the load.
-    let slice = (runs / (w * 16)).clamp(1, 8);
+    // C18 keeps a per-process table "severity of each diagnostic kind": longer slices let one
+    // process see more programs (its runs are cheap for the worker itself: the work is in children)
+    let slice = if opts.prop == "C18" { (runs / (w * 2)).clamp(1, 64) } else { (runs / (w * 16)).clamp(1, 8) };
     let mut slices: Vec<(u64, u64)> = Vec::new();
     let mut s = 0;
     while s < runs {
@@ -312,6 +314,31 @@ pub fn check(opts: &CheckOpts) -> i32 {
     let mut found: Vec<Found> = Vec::new();
     let mut crashed_slices: Vec<(u64, u64, String)> = Vec::new();
     run_pool(&slices, opts, w, max_wall, t0, &mut found, &mut executed, &mut total, &mut crashed_slices);
+    // C18: a diagnostic kind seen with two severities in two different runs
+    {
+        let mut by_kind: BTreeMap<String, Vec<(String, u64)>> = BTreeMap::new();
+        for (k, i) in &total.first_seen {
+            if let Some((kind, level)) = k.strip_prefix("level:").and_then(|r| r.rsplit_once('=')) {
+                by_kind.entry(kind.to_string()).or_default().push((level.to_string(), *i));
+            }
+        }
+        for (kind, mut v) in by_kind {
+            if v.len() < 2 {
+                continue;
+            }
+            v.sort_by_key(|x| x.1);
+            let (lvl_a, _) = v[0].clone();
+            let (_, i_b) = v[1].clone();
+            let seed = run_seed(opts.master, &opts.prop, i_b);
+            let mut scn = props::generate(&opts.prop, seed, opts.tier, i_b);
+            scn.expected_levels.insert(kind.clone(), lvl_a);
+            let mut st = Stats::default();
+            if let Some(vio) = props::check(&scn, &mut st).into_iter().find(|x| x.class.starts_with("severity-not-fixed")) {
+                let lines_n: usize = scn.world.files.values().map(|t| t.lines().count()).sum();
+                found.push(Found { run_index: i_b, run_seed: seed, violation: vio, scenario: scn, minimised: false, minimise_checks: 0, original_lines: lines_n, minimised_lines: lines_n });
+            }
+        }
+    }
     eprintln!("[driver] run phase done at {:.1}s: {} runs, {} found", t0.elapsed().as_secs_f64(), executed, found.len());
     // isolate crashing runs: one run per process
     let mut harness_crashes: Vec<(u64, String)> = Vec::new();
